@@ -522,7 +522,7 @@ func checkC08(c *Ctx) {
 		}
 		ans := c.ask1("EVAL\t" + lowerTable([]string{inText}, obj) + "\t" + runeHex(inText) + "\t" + obj.String())
 		if ans != "NOLOWER" && (modelField(ans, "v") == "1") != a.V {
-			c.internal("Lean model disagrees with the engine on an `in` rule: " + inText + " on " + obj.Pretty() + " -> " + ans + " vs " + a.Line())
+			c.drift(Violation{What: "model and engine differ on an `in` rule (C08 itself compares the engine with itself)", Rule: inText, Object: obj.Pretty(), Go: a.Line(), Model: ans})
 		}
 		c.sample(map[string]string{"in": inText, "expanded": orText, "object": obj.Pretty(), "verdict": strconv.FormatBool(a.V)})
 	}
